@@ -87,6 +87,7 @@ func TestVerifC15(t *testing.T) {
 		// loop 1001/24000*50 = 2.0854166 s: not a whole number of ms
 		{Name: "bad/nonms", Tracks: []ora.GenTrack{{ID: "v", Kind: "video", Timescale: 24000, SampleDur: 1001, SegSamples: []int{25, 25}, UseTime: true}}},
 		// two video representations of different length
+		{Name: "bad/twolen2", Tracks: []ora.GenTrack{{ID: "v1", Kind: "video", Timescale: 1000, SampleDur: 40, SegSamples: []int{50, 25}}, {ID: "v2", Kind: "video", Timescale: 1000, SampleDur: 40, SegSamples: []int{50, 50}}}},
 		{Name: "bad/twolen", Tracks: []ora.GenTrack{{ID: "v1", Kind: "video", Timescale: 1000, SampleDur: 40, SegSamples: []int{50, 50}}, {ID: "v2", Kind: "video", Timescale: 1000, SampleDur: 40, SegSamples: []int{50, 25}}}},
 	}
 	for _, g := range bad {
